@@ -425,7 +425,7 @@ class FileIndex(Index):
     @classmethod
     def create(cls, storage, schema, indexname=_DEF_INDEX_NAME):
         TOC.create(storage, schema, indexname)
-        return cls(storage, schema, indexname)
+        return cls(storage, None, indexname)
 
     def __repr__(self):
         return "%s(%r, %r)" % (self.__class__.__name__,
